@@ -40,6 +40,10 @@ structure Ops (σ V K : Type) where
   isIterable : σ → V → Bool
   /-- `isinstance(value, (str, bytes))` -/
   isStrBytes : σ → V → Bool
+  /-- `isinstance(value, str)` -/
+  isStr : σ → V → Bool
+  /-- `isinstance(value, bytes)` -/
+  isBytes : σ → V → Bool
   /-- `isinstance(value, Mapping)` -/
   isMapping : σ → V → Bool
   /-- `isinstance(value, Sequence)` -/
